@@ -15,9 +15,9 @@
    "answers something other than true" includes non-termination of the real validator on
    cyclic damage (the model's OutOfFuel); the property restricts chain damage to acyclic
    chains.
-   OBLIGATIONS: C14_check_sound C14_damage_rejected_by_check C14_damage_rejected_by_detailed C14_detailed_sound C14_validate_is_detailed C14_try_ops_refuse_on_heap C14_try_ops_refuse_unchanged C14_nonvacuous *)
+   OBLIGATIONS: C14_check_sound C14_damage_rejected_by_check C14_damage_rejected_by_detailed C14_detailed_sound C14_validate_is_detailed C14_try_ops_refuse_on_heap C14_try_ops_refuse_unchanged C14_chain_damage_rejected C14_chain_exact C14_nonvacuous *)
 From BPT Require Import Common.Base Common.AMap Rust.Arena Rust.Tree Rust.Heap Rust.Readers Rust.Run
-     Rust.InvDefs Rust.ValidDefs Rust.Damage Rust.ValidSound.
+     Rust.InvDefs Rust.ValidDefs Rust.Damage Rust.ValidSound Rust.ChainExact.
 From Coq Require Import Permutation.
 
 Theorem C14_check_sound : forall (V : Type) (h : heap V),
@@ -55,6 +55,27 @@ Theorem C14_try_ops_refuse_unchanged : forall (V : Type) (b : bstate V) e k v z,
   try_insert b k v = Ok (b, None, Some (DataIntegrity e)) /\
   try_remove b z = Ok (b, None, Some (DataIntegrity e)).
 Proof. exact try_refuse_state. Qed.
+
+(* chain damage: whenever the ids met by walking the leaf chain from the leftmost leaf differ
+   from the in-order leaf ids of the tree - a chain that skips, truncates or misorders
+   leaves, or runs into an unallocated node - the detailed validators return an error, on
+   any heap whose tree leaves carry a capacity field of at least 2 (damage to the capacity
+   FIELD itself is not among the documented kinds; ChainExact.v exhibits a heap with
+   capacity fields 0 on which a misordered chain of empty leaves is accepted) *)
+Theorem C14_chain_damage_rejected : forall (V : Type) (h : heap V) tids fid cids,
+  collect_leaf_ids h = Ok tids -> get_first_leaf_id h = Ok fid ->
+  chain_ids (S (S (length (store (hleaves h))))) h fid = Ok cids ->
+  (forall id l, In id tids -> get_leaf h id = Some l -> 2 <= lcap l) ->
+  cids <> tids -> check_invariants_detailed h <> Ok None.
+Proof. intros V h tids fid cids. apply chain_damage_rejected. Qed.
+
+Theorem C14_chain_exact : forall (V : Type) (h : heap V) tids fid cids,
+  check_invariants_detailed h = Ok None ->
+  collect_leaf_ids h = Ok tids -> get_first_leaf_id h = Ok fid ->
+  chain_ids (S (S (length (store (hleaves h))))) h fid = Ok cids ->
+  (forall id l, In id tids -> get_leaf h id = Some l -> lkeys l <> []) ->
+  cids = tids.
+Proof. intros V h tids fid cids. apply chain_exact. Qed.
 
 (* a valid three-level map is accepted; each kind of damage injected with the edits of
    Rust/Damage.v is rejected (evaluated by vm_compute) *)
